@@ -334,18 +334,22 @@ def responseCount (cfg : Cfg) (h : Hdrs) : Nat :=
 def isSearch (rl : Bytes) (h : Hdrs) : Bool :=
   rl == ofString "M-SEARCH * HTTP/1.1" && getL h "man" == some (.str discover)
 
+/-- `delay` of `_on_data`: `min(5, int(mx))`, 0 when absent or not an integer -/
+def delayOf (h : Hdrs) : Int :=
+  match getL h "mx" with
+  | some (.str m) => (match pyInt? m with | some n => min 5 n | none => 0)
+  | _ => 0
+
+/-- the sending part of `_on_data`: deferred (timer, after the jitter computation) or immediate -/
+def respond (fx : Fixes) (delay : Int) (count : Nat) : Except Exn Eff :=
+  if count = 0 then .ok noEff
+  else if (if fx.mxClamp then delay > 0 else delay ≠ 0) then
+    if delay * 1000 - 250 ≤ 100 then .error .randrangeEmpty else .ok { timers := 1 }
+  else .ok { sends := count }
+
 /-- `SsdpSearchResponder._on_data` -/
 def responder (fx : Fixes) (cfg : Cfg) (rl : Bytes) (h : Hdrs) : Except Exn Eff :=
-  if !isSearch rl h then .ok noEff
-  else
-    let delay : Int := match getL h "mx" with
-      | some (.str m) => (match pyInt? m with | some n => min 5 n | none => 0)
-      | _ => 0
-    let count := responseCount cfg h
-    if count = 0 then .ok noEff
-    else if (if fx.mxClamp then delay > 0 else delay ≠ 0) then
-      if delay * 1000 - 250 ≤ 100 then .error .randrangeEmpty else .ok { timers := 1 }
-    else .ok { sends := count }
+  if !isSearch rl h then .ok noEff else respond fx (delayOf h) (responseCount cfg h)
 
 /-! ### one datagram at one endpoint -/
 
